@@ -93,7 +93,24 @@ func (sd *c09Side) run(c *harness.Ctx, ending *bool, dir int) {
 		patFill(dir, off, buf)
 		before := len(sd.under.Writes)
 		t0, s0 := time.Now(), c.S.Steps()
+		// a Write that keeps producing wire writes without ever returning is
+		// reported while it is still running (it would otherwise only exhaust
+		// the run's step budget, which is never a verdict)
+		wireWrites, wireBytes := 0, 0
+		size := w.Size
+		sd.under.OnWrite = func(p []byte) {
+			wireWrites++
+			wireBytes += len(p)
+			// everything a terminating Write can need is the payload frames plus a
+			// few padding rounds of at most two segments each
+			if limit := 8 * (size + 21*((size+1426)/1427) + 3000); wireBytes > limit && wireBytes-len(p) <= limit {
+				c.S.Unlock()
+				c.Violate("C09/write-does-not-terminate", "%s iat-mode %d: one application Write of %d bytes has produced %d wire writes (%d bytes) so far and has not returned; table %v", sd.name, sd.iat, size, wireWrites, wireBytes, sortedInts(sd.table))
+				c.S.Lock()
+			}
+		}
 		n, err := sd.conn.Write(buf)
+		sd.under.OnWrite = nil
 		if *ending {
 			return
 		}
